@@ -233,6 +233,7 @@ func showSrc(s string) string {
 var memBefore, memAfter runtime.MemStats
 
 var slowLog = os.Getenv("C05_SLOWLOG")
+var onlyFam = os.Getenv("C05_ONLY")
 
 func main() {
 	vlib.Main(vlib.Spec{
@@ -246,11 +247,16 @@ func main() {
 		},
 		QuickDeadline: 150, ThoroughDeadline: 840,
 		Run: func(t *vlib.T) {
-			runFlood(t)
-			runGrid(t)
-			runMut(t)
-			runLex(t)
-			runBin(t) // last: on a tree that trusts length prefixes these cases allocate GiBs and are slow
+			fams := []struct {
+				name string
+				run  func(*vlib.T)
+			}{{"flood", runFlood}, {"hist", runHist}, {"grid", runGrid}, {"mut", runMut}, {"lex", runLex},
+				{"bin", runBin}} // bin last: on a tree that trusts length prefixes these cases allocate GiBs and are slow
+			for _, f := range fams {
+				if onlyFam == "" || onlyFam == f.name { // C05_ONLY: development aid, never set by run.sh
+					f.run(t)
+				}
+			}
 		},
 	})
 }
